@@ -115,6 +115,23 @@ Proof.
 Qed.
 Print Assumptions C11_sent_well_formed.
 
+(* ---- "while the pipeline is not active ... waiting workers are told to leave":
+   the dispatch that fires the archiving trigger (idle farm, new data) has taken
+   the pipeline out of `running`; its closing notify_all() sends the abort
+   response to every hand of the (sorted) idle list, empties the list, sends no
+   task; the pipeline is inactive afterwards, so later ticks send nothing
+   (C11_inactive).  PARTIAL: that the sorted idle list contains every idle
+   worker (workers_sort is a permutation) is not proved here; the idle list
+   itself is proved empty afterwards. ---- *)
+Theorem C11_archive_tick : forall c s, In OArchive (snd (dispatch c s)) ->
+  active s = true /\
+  workers (fst (dispatch c s)) = [] /\ active (fst (dispatch c s)) = false /\
+  (forall w, In w (map fst (workers_sort (workers s))) -> In (OAbort w) (snd (dispatch c s))) /\
+  (forall w m, ~ In (OTask w m) (snd (dispatch c s))).
+Proof. exact archive_tick. Qed.
+Print Assumptions C11_archive_tick.
+
+
 (* non-vacuity: two registered workers, one stale; a released unit is sent *)
 Definition ex1 : cfg :=
   {| gnodes := [ {| kids := []; anc := []; gfac := Task; lvl := 0; ins := [] |} ];
